@@ -77,6 +77,21 @@ def zll(xs):
     return coq_list([core.zlist(x) for x in xs])
 
 
+def corn(info):
+    return "(mkcorn %s)" % " ".join(core.zlist(info[k][j]) for k in ("fc", "cc", "cf") for j in (0, 1))
+
+
+KEYS = ("edges", "faces", "cells", "fc", "cc", "cf", "kind")
+
+
+def info_term(info):
+    return "(%s, %s, %s, %s, %s)" % (zll(info["edges"]), zll(info["faces"]), zll(info["cells"]), corn(info), zlit(info["kind"]))
+
+
+def same_info(a, b):
+    return all(a[k] == b[k] for k in KEYS)
+
+
 def nat(n):
     return "%d%%nat" % n
 
@@ -101,14 +116,21 @@ def encode_case(case, steps):
         name = op[0]
         info = st["new"]
         new = cur[-1] if info is not None else None
-        onew = "None"
+        onew = "NewNone"
+        if name in ("copy", "merge"):
+            # the model carries the containers recorded when each object was created: stop if a source has been
+            # edited since by something the model does not follow (SurfaceSubdivision empties face_corners)
+            srcs = [op[1]] if name == "copy" else op[1]
+            if not all(same_info(infos[m], si) for m, si in zip(srcs, info["src"])):
+                break
         if name == "arr":
-            t = "(ONew %s [] [] [] (-1))" % coq_list(["(IFresh %s)" % vl(p) for p in new["xyz"]])
+            t = "(ONew %s [] [] [] corn0 (-1))" % coq_list(["(IFresh %s)" % vl(p) for p in new["xyz"]])
         elif name == "from_arrays":
-            t = "(OFromArrays %s %s %s %s %s)" % (nat(op[1]), zll(info["edges"]), zll(info["faces"]), zll(info["cells"]), zlit(info["kind"]))
+            t = "(OFromArrays %s %s %s %s %s %s)" % (nat(op[1]), zll(info["edges"]), zll(info["faces"]), zll(info["cells"]),
+                                                     corn(info), zlit(info["kind"]))
         elif name == "ring":
-            t = "(ORing %s %s %s %s %s %s)" % (zlit(op[1]), zlit(op[2]), coq_bool(op[3]), coq_list([vl(p) for p in new["xyz"]]),
-                                              zll(info["edges"]), zll(info["faces"]))
+            t = "(ORing %s %s %s %s %s %s %s)" % (zlit(op[1]), zlit(op[2]), coq_bool(op[3]), coq_list([vl(p) for p in new["xyz"]]),
+                                                 zll(info["edges"]), zll(info["faces"]), corn(info))
         elif name in ("proc", "load", "subdiv", "border"):
             where = {}
             for i, o in enumerate(cur[:-1]):
@@ -120,15 +142,16 @@ def encode_case(case, steps):
                     pat.append("(IShare %s %s)" % (nat(where[c][0]), nat(where[c][1])))
                 else:
                     pat.append("(IFresh %s)" % vl(p))
-            t = "(ONew %s %s %s %s %s)" % (coq_list(pat), zll(info["edges"]), zll(info["faces"]), zll(info["cells"]), zlit(info["kind"]))
+            t = "(ONew %s %s %s %s %s %s)" % (coq_list(pat), zll(info["edges"]), zll(info["faces"]), zll(info["cells"]), corn(info),
+                                             zlit(info["kind"]))
         elif name == "copy":
             t = "(OCopy %s %s)" % (nat(op[1]), coq_bool(op[2]))
-            si = infos[op[1]]
-            if [info[x] for x in ("edges", "faces", "cells", "kind")] != [si[x] for x in ("edges", "faces", "cells", "kind")]:
-                onew = "(Some (%s, %s, %s, %s))" % (zll(info["edges"]), zll(info["faces"]), zll(info["cells"]), zlit(info["kind"]))
+            # every container of the copy against what was observed on the source (NewSame: the two observations are
+            # identical, Coq compares the model's copy with the stored observation of the source)
+            onew = "(NewSame %s)" % nat(op[1]) if same_info(info, infos[op[1]]) else "(NewFull %s)" % info_term(info)
         elif name == "merge":
             t = "(OMerge %s)" % coq_list([nat(m) for m in op[1]])
-            onew = "(Some (%s, %s, %s, %s))" % (zll(info["edges"]), zll(info["faces"]), zll(info["cells"]), zlit(info["kind"]))
+            onew = "(NewFull %s)" % info_term(info)
         else:
             def orig(p):
                 v = OR.resolve(prev, p)
@@ -264,6 +287,7 @@ def run(ctx):
     # 1. oracle on every case
     fails = []
     notes = {}
+    prod = {}
     for idx, (c, o) in enumerate(zip(cases, obs)):
         for op, st in zip(c["ops"], o):
             ctx.count("op " + op[0] + ("" if st["ok"] else " (raised)"))
@@ -273,6 +297,14 @@ def run(ctx):
                 ctx.count("loader ." + op[2])
         ctx.count("ops<=%d" % (5 * ((len(c["ops"]) + 4) // 5)))
         f, nt = OR.check_case(c, o)
+        # per-producer invariant: no two vertex ids share a buffer, no buffer shared with another live object / the caller
+        bad_steps = {x[0]: x[1] for x in f if x[1].endswith(("shares-buffers", "aliases-source", "aliases-caller-vectors"))}
+        for k, (op, st) in enumerate(zip(c["ops"], o)):
+            if st["ok"] and st["new"] is not None and op[0] != "arr":
+                pk = op[0] + (" " + op[1] if op[0] == "proc" else " ." + op[2] if op[0] == "load" else " " + op[2] if op[0] == "subdiv" else "")
+                rec = prod.setdefault(pk, [0, 0])
+                rec[0] += 1
+                rec[1] += 1 if k in bad_steps else 0
         for t in nt:
             key = t.split(":")[0][:70]
             notes[key] = notes.get(key, 0) + 1
@@ -281,6 +313,10 @@ def run(ctx):
         ctx.case_seen(c["ops"], nontrivial=nontrivial(c),
                       sample={"history": c["ops"][:10]} if len(c["ops"]) >= 4 else None)
     ctx.extra["oracle_notes"] = notes
+    ctx.extra["producer_invariant (results checked, results sharing a buffer)"] = {k: v for k, v in sorted(prod.items())}
+    viol = sorted(k for k, v in prod.items() if v[1])
+    ctx.log("producers whose results share vertex buffers (inside the result, with another live object or with the caller): %s"
+            % (", ".join("%s %d/%d" % (k, prod[k][1], prod[k][0]) for k in viol) or "none"))
     ctx.obligation("oracle: value semantics restated on every observation of the implementation (snapshots of all live objects)",
                    "oracle-on-implementation", True, "%d failing steps" % len(fails))
 
